@@ -18,6 +18,7 @@ from __future__ import annotations
 
 import fnmatch
 import json
+import os
 import re
 import zlib
 from pathlib import Path
@@ -573,9 +574,10 @@ def build_cases(job: dict, res: dict, ref: dict, per: dict, traces: dict, match:
 
 # ---------------------------------------------------------------- running
 
-def run(ctx, jobs: list, corr: Corr, seen: set, model: bool = True) -> None:
+def run(ctx, jobs: list, corr: Corr, seen: set, model: bool = True, extra_env: dict | None = None) -> None:
     from .. import child
-    results = child.run_jobs([{k: v for k, v in j.items() if k not in ('block', 'name', 'exact', 'pol', 'expect')} for j in jobs], par=14, chunk=8)
+    results = child.run_jobs([{k: v for k, v in j.items() if k not in ('block', 'name', 'exact', 'pol', 'expect')} for j in jobs], par=14, chunk=8,
+                             extra_env=extra_env)
     # infrastructure failures (time-outs under load, a worker that died): run again, the last time one at a time;
     # a job that succeeds on a retry is an ordinary job
     strip = ('block', 'name', 'exact', 'pol', 'expect')
@@ -584,7 +586,8 @@ def run(ctx, jobs: list, corr: Corr, seen: set, model: bool = True) -> None:
         if not redo:
             break
         ctx.log(f'retry {attempt + 1}: {len(redo)} job(s): ' + ', '.join(f'{jobs[i]["name"]}:{results[i].get("error")}' for i in redo[:5]))
-        again = child.run_jobs([dict({k: v for k, v in jobs[i].items() if k not in strip}, id=f'r{attempt}_{i}') for i in redo], par=par, chunk=chunk)
+        again = child.run_jobs([dict({k: v for k, v in jobs[i].items() if k not in strip}, id=f'r{attempt}_{i}') for i in redo], par=par, chunk=chunk,
+                               extra_env=extra_env)
         for i, r in zip(redo, again):
             if not (r.get('error') or not r.get('reference')) or attempt == 1:
                 results[i] = r
@@ -816,6 +819,22 @@ def correspond(ctx) -> Corr:
     jobs = gen_jobs(ctx.rng, ctx.tier)
     ctx.log(f'{len(jobs)} jobs')
     run(ctx, jobs, corr, seen)
+    # the user's environment: a ~/.pdbrc (a documented pdb feature) that issues a resuming command -- nextline's Pdb instances must
+    # not read it, the prompts are the client's to answer
+    import tempfile
+    home = tempfile.mkdtemp(prefix='verif_home_')
+    try:
+        with open(os.path.join(home, '.pdbrc'), 'w') as f:
+            f.write('continue\n')
+        rc_jobs = []
+        for name, src in progen.FIXED[:4 if ctx.tier == 'quick' else len(progen.FIXED)]:
+            for pol in ('step', 'next'):
+                rc_jobs.append(make_job(lambda p, r, s=src: s, set(), 'pdbrc:' + name, 'str', pol, True, False, ctx.rng))
+        run(ctx, rc_jobs, corr, seen, extra_env={'HOME': home})
+        corr.extra['jobs_with_a_pdbrc_in_home'] = len(rc_jobs)
+    finally:
+        import shutil
+        shutil.rmtree(home, ignore_errors=True)
     run_options(ctx, corr, 120 if ctx.tier == 'quick' else 400)
     order_violations(corr)
     corr.extra['programs_skipped_at_generation'] = progen.SKIPPED['invalid_programs']
